@@ -74,7 +74,7 @@ class W(_unbuf.StaleWorld):
 
     def st_op(self, st):
         self._hold = bool(st.get("hold"))
-        if st["hid"] < len(self.handles) and self.handles[st["hid"]].state == "removed":
+        if st["hid"] < len(self.handles) and self.handles[st["hid"]] is not None and self.handles[st["hid"]].state == "removed":
             self.probe("removed_handle_mutated")
         if any(isinstance(a, dict) and "$handle" in a for a in _flat(st.get("args", []))):
             self.probe("synced_operand_stored")
